@@ -24,7 +24,7 @@ class SharedMutex {
 
   using native_handle_type = void*;
 
-  inline native_handle_type native_handle();
+  native_handle_type native_handle();
 
  protected:
   void LockHelper();
